@@ -30,8 +30,8 @@ CONTAINER_BASES = ("QWidget", "QDialog", "QGroupBox", "QFrame")
 
 def tier_params(tier):
     if tier == "thorough":
-        return {"cases": 2500, "max_schedules": 40, "wall_budget_s": 3000}
-    return {"cases": 140, "max_schedules": 16, "wall_budget_s": 600}
+        return {"cases": 12000, "max_schedules": 40, "wall_budget_s": 3300}
+    return {"cases": 400, "max_schedules": 16, "wall_budget_s": 600}
 
 
 def relpath_spelling(rng, frm, to):
